@@ -76,6 +76,8 @@ type Case struct {
 	Funcs []Func `json:"funcs"` // Text is cleared in saved cases (it is inside Wat)
 	Calls []Call `json:"calls"`
 	Seed  uint64 `json:"data_seed"`
+	// ExitCode >= 0: the C02 _start function ends with proc_exit(ExitCode).
+	ExitCode int `json:"exit_code"`
 }
 
 // Config tunes generation for one property.
@@ -166,6 +168,9 @@ func Prelude(seed uint64, cfg *Config) string {
 	sb.WriteString("(elem (i32.const 1) $h_add $h_sub)\n(elem (i32.const 3) $h_mul)\n(elem (i32.const 4) $h_I)\n(elem (i32.const 5) $h_ff)\n(elem (i32.const 6) $h_pair)\n")
 	fmt.Fprintf(&sb, "(data (i32.const 0) \"%s\")\n", watString(dataBytes(seed, 256)))
 	fmt.Fprintf(&sb, "(data (i32.const %d) \"%s\")\n", PageSize-256, watString(dataBytes(seed+1, 256)))
+	if cfg.Start {
+		fmt.Fprintf(&sb, "(data (i32.const %d) \"%s\")\n", StartDataOffset, watString([]byte(StartMarker)))
+	}
 	sb.WriteString(`(func $h_add (param $a i32) (param $b i32) (result i32)
   local.get $a
   local.get $b
@@ -1165,7 +1170,10 @@ func Generate(t *rapid.T, cfg *Config) *Case {
 
 // Script draws the call script for the given functions and assembles the case.
 func Script(t *rapid.T, cfg *Config, seed uint64, funcs []*Func) *Case {
-	c := &Case{Seed: seed}
+	c := &Case{Seed: seed, ExitCode: -1}
+	if cfg.Start {
+		c.ExitCode = rapid.SampledFrom([]int{-1, -1, 0, 1, 7, 125}).Draw(t, "exitcode")
+	}
 	for _, f := range funcs {
 		c.Funcs = append(c.Funcs, *f)
 	}
@@ -1213,6 +1221,9 @@ func Script(t *rapid.T, cfg *Config, seed uint64, funcs []*Func) *Case {
 	}
 	for k := 0; k < 4; k++ {
 		c.Calls = append(c.Calls, Call{F: gbase + k, Class: "-"})
+	}
+	if cfg.Start {
+		OrderForStart(c, 1)
 	}
 	c.Wat = Render(seed, cfg, c)
 	return c
